@@ -60,12 +60,12 @@ def main():
     def make_or(kind):
         def mk(field):
             if kind == "hand":
-                base = fem.NeoHooke(mu=1.0, bulk=5.0)
-                umat = fem.OgdenRoxburgh(base, r=3, m=1, beta=0.1)
+                base = fem.NeoHooke(mu=1.25, bulk=5.0)
+                umat = fem.OgdenRoxburgh(base, r=3, m=0.75, beta=0.125)
             else:
                 # softening acts on the distortional part; the volumetric part is added unchanged
-                base = fem.Hyperelastic(fem.neo_hooke, mu=1.0)
-                umat = fem.Hyperelastic(fem.ogden_roxburgh, material=fem.neo_hooke, r=3, m=1, beta=0.1, mu=1.0, nstatevars=1)
+                base = fem.Hyperelastic(fem.neo_hooke, mu=1.25)
+                umat = fem.Hyperelastic(fem.ogden_roxburgh, material=fem.neo_hooke, r=3, m=0.75, beta=0.125, mu=1.25, nstatevars=1)
                 return fem.SolidBody(umat & fem.Volumetric(bulk=5.0), field), (umat, base)
             return fem.SolidBody(umat, field), (umat, base)
         return mk
@@ -88,7 +88,7 @@ def main():
                     wmax = solid.results.statevars[0]
                 else:
                     # stresses of the distortional parts (softened / base); energy of the same base model
-                    W = fem.NeoHooke(mu=1.0).function([F, None])[0]
+                    W = fem.NeoHooke(mu=1.25).function([F, None])[0]
                     Pb = base.gradient([F, None])[0]
                     P = umat.gradient([F, svb])[0]
                     wmax = solid.results.statevars[0]
@@ -133,7 +133,7 @@ def main():
 
     # ---------------------------------------------------------------- elastic path independence
     def make_el(field):
-        return fem.SolidBody(fem.NeoHooke(mu=1.0, bulk=5.0), field), (None, None)
+        return fem.SolidBody(fem.NeoHooke(mu=1.25, bulk=5.0), field), (None, None)
 
     runs = []
     for levels in ramps:
